@@ -9,6 +9,7 @@ import (
 	"math/big"
 	"os"
 	"strings"
+	"time"
 
 	"golang.org/x/tools/go/ssa"
 )
@@ -39,6 +40,12 @@ type Config struct {
 	MapOrderRev bool
 	NoMerge     bool
 	MergeFuncs  map[string]bool
+	StopAfterUnknown   bool // end a path at its first undecided assertion (best-effort runs)
+	// PortfolioFallback: feasibility queries go to the incremental solver with a short
+	// timeout (10 s); one that comes back unknown (or is killed by the watchdog) is asked
+	// again of fresh z3 / cvc5 / z3-new processes with the full timeout. Non-linear real
+	// queries that stall z3's incremental nlsat are often immediate for another back end.
+	PortfolioFallback bool
 	StopAfterViolation bool // end a path at its first violated assertion (expensive NRA harnesses)
 	OneShotAll     bool // every query goes to fresh non-incremental solver processes
 	OneShotAsserts bool // decide assertions with fresh non-incremental solver processes (z3 and cvc5 side by side)
@@ -122,6 +129,8 @@ type Exec struct {
 	logging     bool
 	logSeg      string
 	logCount    map[accessKey]int
+	lowerIdx    map[int]int
+	deadline    time.Time
 	varBounds   map[int]ival
 	ivMemo      map[int]ival
 	ufTables    map[*Value]*ufTable
@@ -254,6 +263,27 @@ func (e *Exec) assume(c *Term) {
 		if v, ok := EvalBV(c, e.model); !ok || v == 0 {
 			e.model = nil
 		}
+	}
+	// a counting loop adds k < x for k = 0,1,2,...: keep only the strongest lower bound
+	if (c.Op == OBvUlt || c.Op == OBvSlt) && c.Args[0].IsConst() && !c.Args[1].IsConst() {
+		if e.lowerIdx == nil {
+			e.lowerIdx = map[int]int{}
+		}
+		key := c.Args[1].ID*2 + map[bool]int{true: 1, false: 0}[c.Op == OBvSlt]
+		if i, ok := e.lowerIdx[key]; ok && i < len(e.pcs) && e.pcs[i].Op == c.Op && e.pcs[i].Args[1] == c.Args[1] && len(e.scopes) == 0 && e.merging == 0 {
+			old := e.pcs[i].Args[0]
+			stronger := old.C <= c.Args[0].C
+			if c.Op == OBvSlt {
+				stronger = sext(old.C, old.Sort.W) <= sext(c.Args[0].C, c.Sort.W) || sext(old.C, old.Sort.W) <= sext(c.Args[0].C, old.Sort.W)
+			}
+			if stronger {
+				e.pcs[i] = c
+				e.known[c.ID] = true
+				e.noteVars(c)
+				return
+			}
+		}
+		e.lowerIdx[key] = len(e.pcs)
 	}
 	e.pcs = append(e.pcs, c)
 	e.noteVars(c)
@@ -400,9 +430,16 @@ func (e *Exec) check(extra ...*Term) Result {
 		lits = append(lits, extra...)
 		var r Result
 		if e.Cfg.OneShotAll {
-			r, _ = e.S.OneShot(lits, nil, e.S.TimeoutMs, nil)
+			r, _ = e.S.OneShot(lits, nil, e.S.LongMs, nil)
 		} else {
+			t0 := time.Now()
 			r = e.S.CheckWith(lits...)
+			if d := os.Getenv("VERIF_SLOW"); d != "" && time.Since(t0) > 5*time.Second {
+				os.WriteFile(fmt.Sprintf("%s.%d.%d.smt2", d, os.Getpid(), len(lits)), []byte(scriptFor(lits, nil, "")), 0o644)
+			}
+			if r == Unknown && e.Cfg.PortfolioFallback {
+				r, _ = e.S.OneShot(lits, nil, e.S.LongMs, nil)
+			}
 		}
 		if r != Sat || len(e.ufOrder) == 0 {
 			return r
@@ -429,9 +466,13 @@ func (e *Exec) checkVals(ts []*Term, extra ...*Term) (Result, []ModelValue) {
 	lits = append(lits, e.ufFacts...)
 	lits = append(lits, extra...)
 	if e.Cfg.OneShotAll {
-		return e.S.OneShot(lits, ts, e.S.TimeoutMs, nil)
+		return e.S.OneShot(lits, ts, e.S.LongMs, nil)
 	}
-	return e.S.CheckModel(ts, lits...)
+	r, vals := e.S.CheckModel(ts, lits...)
+	if r == Unknown && e.Cfg.PortfolioFallback {
+		return e.S.OneShot(lits, ts, e.S.LongMs, nil)
+	}
+	return r, vals
 }
 
 // checkModel checks PC ∧ c and returns a model over the input variables.
@@ -589,6 +630,9 @@ func (e *Exec) tick(instr ssa.Instruction) {
 	e.steps++
 	if e.Cfg.MaxSteps > 0 && e.steps > int64(e.Cfg.MaxSteps) {
 		panic(boundExhausted{fmt.Sprintf("path instruction budget %d", e.Cfg.MaxSteps)})
+	}
+	if e.steps&4095 == 0 && !e.deadline.IsZero() && time.Now().After(e.deadline) {
+		panic(boundExhausted{"wall budget of the run (path abandoned)"})
 	}
 	if e.Cfg.StepBudget > 0 && e.steps > e.Cfg.StepBudget {
 		panic(budgetViolation{"steps", fmt.Sprintf("executed %d SSA instructions, budget %d", e.steps, e.Cfg.StepBudget)})
@@ -1053,8 +1097,8 @@ func (e *Exec) posOf(instr ssa.Instruction) string {
 }
 
 func shortFile(f string) string {
-	if i := strings.Index(f, "/repo/"); i >= 0 {
-		return f[i+6:]
+	if strings.HasPrefix(f, RepoDir+"/") {
+		return f[len(RepoDir)+1:]
 	}
 	if i := strings.Index(f, "/src/"); i >= 0 {
 		return f[i+5:]
